@@ -87,70 +87,70 @@ Definition env_drop_world (e : senv) : senv :=
   {| se_stores := NM.empty mstore; se_table := []; se_cx := env_drop_all (NM.elements (se_stores e)) (se_cx e);
      se_ideal := se_ideal e |}.
 
+(* which storage an operation addresses, and whether it takes an entity handle *)
+Definition sop_sid (so : sop) : N :=
+  match so with
+  | SInsert s _ _ | SGet s _ | SGetMut s _ _ _ | SRemove s _ | SContains s _ | SCount s | SIsEmpty s | SMask s
+  | SSlice s | SClear s | SDrain s | SEntry s _ _ | SGetMutOrDefault s _ | SRegister s | SRegReader s
+  | SReadEvents s _ | SSetEmission s _ => s
+  end.
+Definition sop_handle (so : sop) : option href :=
+  match so with
+  | SInsert _ h _ | SGet _ h | SGetMut _ h _ _ | SRemove _ h | SContains _ h | SEntry _ h _ | SGetMutOrDefault _ h => Some h
+  | _ => None
+  end.
+
+(* one operation on one (registered) storage; [ent] is the resolved handle (a
+   dummy for operations without one) *)
+Definition ms_sop (ms : mstore) (av : aview) (ent : entity) (so : sop) (c : ctx) : mstore * wout * ctx :=
+  match so with
+  | SInsert _ _ v => let '(ms1, r, c1) := st_insert ms av ent v c in (ms1, WIns r, c1)
+  | SGet _ _ => let '(r, c1) := st_get ms av ent c in (ms, WOptTok r, c1)
+  | SGetMut _ _ touch nv => let '(ms1, r, c1) := st_get_mut ms av ent touch nv c in (ms1, WOptTok r, c1)
+  | SRemove _ _ => let '(ms1, r, c1) := st_remove ms av ent c in (ms1, WOptTok r, c1)
+  | SContains _ _ => (ms, WBool (st_contains ms av ent), c)
+  | SCount _ => (ms, WNat (N.of_nat (NS.cardinal (ms_mask ms))), c)
+  | SIsEmpty _ => (ms, WBool (NS.is_empty (ms_mask ms)), c)
+  | SMask _ => (ms, WIdx (NS.elements (ms_mask ms)), c)
+  | SSlice _ =>
+      match ms_wrap ms with
+      | WPlain => let '(v, c1) := u_slice (ms_raw ms) (NS.elements (ms_mask ms)) c in (ms, WSlice v, c1)
+      | _ => (ms, WSlice SliceNone, c)       (* the wrappers do not implement SliceAccess *)
+      end
+  | SClear _ => let '(ms1, c1) := m_clear ms c in (ms1, WUnit, c1)
+  | SDrain _ => let '(ms1, l, c1) := st_drain ms c in (ms1, WToks l, c1)
+  | SEntry _ _ eo => let '(ms1, r, c1) := st_entry ms av ent eo c in (ms1, WEntry r, c1)
+  | SGetMutOrDefault _ _ => let '(ms1, r, c1) := st_get_mut_or_default ms av ent c in (ms1, WOptTok r, c1)
+  | SRegister _ => (ms, WUnit, c)
+  | SRegReader _ =>
+      match ms_wrap ms with
+      | WPlain => (ms, WSkip, c)
+      | _ => let '(ms1, k) := st_register_reader ms in (ms1, WReader k, c)
+      end
+  | SReadEvents _ k =>
+      match st_read_events ms k with
+      | (ms1, Some l) => (ms1, WEvents l, c)
+      | (_, None) => (ms, WSkip, c)
+      end
+  | SSetEmission _ b =>
+      match ms_wrap ms with
+      | WPlain => (ms, WSkip, c)
+      | _ => (st_set_emission ms b, WUnit, c)
+      end
+  end.
+
 (* one storage operation; [hs] resolves handle references *)
 Definition env_sop (e : senv) (av : aview) (hs : pvec entity) (so : sop) : senv * wout :=
-  let with_store sid (k : mstore -> senv * wout) : senv * wout :=
-    match NM.find sid (se_stores e) with
-    | Some ms => k ms
-    | None => (env_fail e, WSkip)      (* fetching an unregistered component panics *)
-    end in
-  let with_handle h (k : entity -> senv * wout) : senv * wout :=
-    match pv_get hs (N.of_nat h) with
-    | Some ent => k ent
-    | None => (e, WSkip)
-    end in
   match so with
-  | SInsert sid h v =>
-      with_handle h (fun ent => with_store sid (fun ms =>
-        let '(ms1, r, c1) := st_insert ms av ent v (se_cx e) in (env_put e sid ms1 c1, WIns r)))
-  | SGet sid h =>
-      with_handle h (fun ent => with_store sid (fun ms =>
-        let '(r, c1) := st_get ms av ent (se_cx e) in (env_cx e c1, WOptTok r)))
-  | SGetMut sid h touch nv =>
-      with_handle h (fun ent => with_store sid (fun ms =>
-        let '(ms1, r, c1) := st_get_mut ms av ent touch nv (se_cx e) in (env_put e sid ms1 c1, WOptTok r)))
-  | SRemove sid h =>
-      with_handle h (fun ent => with_store sid (fun ms =>
-        let '(ms1, r, c1) := st_remove ms av ent (se_cx e) in (env_put e sid ms1 c1, WOptTok r)))
-  | SContains sid h =>
-      with_handle h (fun ent => with_store sid (fun ms => (e, WBool (st_contains ms av ent))))
-  | SCount sid => with_store sid (fun ms => (e, WNat (N.of_nat (NS.cardinal (ms_mask ms)))))
-  | SIsEmpty sid => with_store sid (fun ms => (e, WBool (NS.is_empty (ms_mask ms))))
-  | SMask sid => with_store sid (fun ms => (e, WIdx (NS.elements (ms_mask ms))))
-  | SSlice sid =>
-      with_store sid (fun ms =>
-        match ms_wrap ms with
-        | WPlain =>
-            let '(v, c1) := u_slice (ms_raw ms) (NS.elements (ms_mask ms)) (se_cx e) in (env_cx e c1, WSlice v)
-        | _ => (e, WSlice SliceNone)       (* the wrappers do not implement SliceAccess *)
-        end)
-  | SClear sid =>
-      with_store sid (fun ms => let '(ms1, c1) := m_clear ms (se_cx e) in (env_put e sid ms1 c1, WUnit))
-  | SDrain sid =>
-      with_store sid (fun ms => let '(ms1, l, c1) := st_drain ms (se_cx e) in (env_put e sid ms1 c1, WToks l))
-  | SEntry sid h eo =>
-      with_handle h (fun ent => with_store sid (fun ms =>
-        let '(ms1, r, c1) := st_entry ms av ent eo (se_cx e) in (env_put e sid ms1 c1, WEntry r)))
-  | SGetMutOrDefault sid h =>
-      with_handle h (fun ent => with_store sid (fun ms =>
-        let '(ms1, r, c1) := st_get_mut_or_default ms av ent (se_cx e) in (env_put e sid ms1 c1, WOptTok r)))
   | SRegister sid => (env_register e sid, WUnit)
-  | SRegReader sid =>
-      with_store sid (fun ms =>
-        match ms_wrap ms with
-        | WPlain => (e, WSkip)
-        | _ => let '(ms1, k) := st_register_reader ms in (env_put e sid ms1 (se_cx e), WReader k)
-        end)
-  | SReadEvents sid k =>
-      with_store sid (fun ms =>
-        match st_read_events ms k with
-        | (ms1, Some l) => (env_put e sid ms1 (se_cx e), WEvents l)
-        | (_, None) => (e, WSkip)
-        end)
-  | SSetEmission sid b =>
-      with_store sid (fun ms =>
-        match ms_wrap ms with
-        | WPlain => (e, WSkip)
-        | _ => (env_put e sid (st_set_emission ms b) (se_cx e), WUnit)
-        end)
+  | _ =>
+      let go (ent : entity) : senv * wout :=
+        match NM.find (sop_sid so) (se_stores e) with
+        | Some ms => let '(ms1, out, c1) := ms_sop ms av ent so (se_cx e) in (env_put e (sop_sid so) ms1 c1, out)
+        | None => (env_fail e, WSkip)      (* fetching an unregistered component panics *)
+        end in
+      match sop_handle so with
+      | Some h => match pv_get hs (N.of_nat h) with Some ent => go ent | None => (e, WSkip) end
+      | None => go (0, 0%Z)
+      end
   end.
